@@ -26,7 +26,7 @@ Definition chg_stash (i : instr) : bool := match i with IAct AStash | IAct (AUns
 Definition chg_reg (i : instr) : bool := match i with ICleanup => true | _ => false end.
 Definition chg_olog (i : instr) : bool := match i with IBeh _ _ _ | IObs _ => true | _ => false end.
 
-Ltac leaf_fields := repeat split; intros; repeat destr_match; first [reflexivity|discriminate|congruence].
+Ltac leaf_fields := repeat split; intros; cbn; repeat destr_match; first [reflexivity|discriminate|congruence].
 
 (** summary of [exec1] for everything but ActorOf: only the executing context's record changes, and only
     the listed instructions change the listed fields *)
@@ -54,5 +54,43 @@ Proof.
   try discriminate Hsp.
   all: try (exists x; split; [symmetry; apply upd_same; exact Hg'|split; [apply core_same_refl|leaf_fields]]; fail).
   all: try (eexists; split; [reflexivity|split; [repeat split; repeat destr_match; reflexivity|leaf_fields]]; fail).
-  all: match goal with |- ?g => idtac g end.
+  all: repeat destr_match.
+  all: try (exists x; split; [symmetry; apply upd_same; exact Hg'|split; [apply core_same_refl|leaf_fields]]; fail).
+  all: try (eexists; split; [reflexivity|split; [repeat split; repeat destr_match; reflexivity|leaf_fields]]; fail).
+Qed.
+
+(* ------------------------------------------------------------------ the instructions exec1 emits *)
+
+Definition is_beh (i : instr) : bool := match i with IBeh _ _ _ => true | _ => false end.
+Definition is_obs_seen (i : instr) : bool := match i with IObs (OSeen _ _ _ _) => true | _ => false end.
+(** significant instructions: everything that is not a plain send / publish / user action *)
+Definition sig (i : instr) : bool := life_src i || is_unzombie i || is_beh i || is_end i || is_obs_seen i.
+Definition gen_sig (i : instr) : bool :=
+  match i with IDoKill _ | IOnKilled _ | ICheckMark | IRestartFinish => true | _ => false end.
+
+Ltac in_front Hj :=
+  repeat first
+    [ rewrite in_app_iff in Hj
+    | match type of Hj with
+      | _ \/ _ => destruct Hj as [Hj|Hj]
+      | False => destruct Hj
+      | In _ [] => destruct Hj
+      | In _ (_ :: _) => destruct Hj as [Hj|Hj]
+      | In _ (map _ _) => apply in_map_iff in Hj as (? & Hj & ?)
+      | In _ (flat_map _ _) => apply in_flat_map in Hj as (? & ? & Hj)
+      | In _ (if ?b then _ else _) => destruct b
+      | In _ (match ?b with _ => _ end) => destruct b
+      end ].
+
+Lemma exec1_front_plain s t h i s' front :
+  gen_sig i = false -> exec1 s t h i = (s', front) -> forall j, In j front -> sig j = false.
+Proof.
+  intros Hgs He. unfold exec1 in He.
+  destruct (get s (self_of t)) as [x|]; [|inversion He; intros j []].
+  destruct i; try discriminate Hgs;
+  repeat (match type of He with
+          | (_, _) = (_, _) => inversion He; subst s' front; clear He
+          | context [match ?y with _ => _ end] => destruct y eqn:?
+          end);
+  intros j Hj; in_front Hj; subst; try reflexivity.
 Qed.
